@@ -368,6 +368,24 @@ def oracle_c04(ctx, budget_s):
             ctx.count("skip.F18")
         seqs = check_sound(ctx, case, "RandomGen", 6, "C04")
         ctx.count("C04.RandomGen")
+        if "F22" in case.regs and case.random_ok():
+            # inside the region of the open finding F22 the reference semantics cannot judge; there RandomGen must at
+            # least agree with the library's own checker (both read the alignment-aware windows)
+            try:
+                exps = O.synth(case.fresh_block(), 4, "RandomGen", timeout=20)
+            except (Exception, O.CallTimeout):
+                exps = []
+            blk = case.built.block
+            for e in exps:
+                ctx.count("C04.self-consistency")
+                try:
+                    mm = quiet(sp.sample_mismatch_experiment, blk, {k: list(v) for k, v in e.items()})
+                except Exception:
+                    mm = {}
+                if mm.get("crossings") or mm.get("constraints"):
+                    report(ctx, "sound", case, "RandomGen returned a sequence the library's own mismatch checker rejects (%s): %s" % (
+                        mm, json.dumps(e)[:300]), {"strategy": "RandomGen"}, None)
+                    break
         ctx.case(("C04", json.dumps(case.desc, sort_keys=True)), nontrivial(case),
                  sample={"design": sample_desc(case), "returned": len(seqs or [])} if len(ctx.samples) < 3 else None)
         if ctx.failures:
@@ -378,7 +396,10 @@ def oracle_c06(ctx, budget_s):
     ctx.rules.append("C06 oracle: exhausted RandomGen multiset = Spec.validSeqs; for designs RandomGen samples "
                      "without rejection (no complex windows/constraints, one crossing) the reported "
                      "solution_count metric (combined over preamble, rounds and leftover) equals the number of solutions")
-    for case in gen_cases(ctx, budget_s, max_trials=5):
+    def first(desc):
+        # the bookkeeping of excluded levels is where counts go wrong: designs with Excludes first
+        return sum(1 for c in D.all_constraints(desc["block"]) if c["k"] == "Exclude") >= 1
+    for case in gen_cases(ctx, budget_s, max_trials=5, prefer=first):
         got = check_exhaust(ctx, case, "RandomGen", "C06")
         ctx.count("C06.exhaust" + (".empty" if got == {} else ""))
         if got is not None:
@@ -392,7 +413,21 @@ def oracle_c06(ctx, budget_s):
 def _check_reported_count(ctx, case, got):
     from sweetpea._internal.sampling_strategy.random import UCSolutionEnumerator
     blk = case.fresh_block()
-    if getattr(blk, "complex_factors_or_constraints", True) or len(blk.crossings) != 1 or blk.errors - {e for e in blk.errors if e.startswith("WARNING")}:
+    # "needs no rejection step": one crossing, no factor with a complex window, and only constraints RandomGen
+    # satisfies by construction (MinimumTrials, Exclude).  (The block's own flag complex_factors_or_constraints is
+    # always True - Cross and Consistency count as complex - so it cannot be used here.)
+    user = [c["k"] for c in D.all_constraints(case.desc["block"])]
+    fs = _fmap(case.desc)
+    crossed = set(case.desc["block"].get("crossing", []))
+    used_as_source = {d for f in case.desc["factors"] if f["window"] for d in f["window"]["deps"]}
+    for c in D.all_constraints(case.desc["block"]):
+        # an Exclude on a derived level, or on an uncrossed factor that a derived factor reads, is enforced by
+        # rejection (the enumerator does not remove it from the source combinations): the clause does not apply
+        if c["k"] == "Exclude" and (fs[c["f"]]["window"] is not None or (c["f"] not in crossed and c["f"] in used_as_source)):
+            return
+    if case.desc["block"]["k"] != "cross" or any(k not in ("MinimumTrials", "Exclude") for k in user) or \
+            any(f.has_complex_window for f in blk.design) or len(blk.crossings) != 1 or \
+            blk.errors - {e for e in blk.errors if e.startswith("WARNING")}:
         return
     try:
         en = quiet(UCSolutionEnumerator, blk)
@@ -498,7 +533,8 @@ def oracle_c09(ctx, budget_s):
         # exclusions together with a preamble
         ks = block_kinds(desc["block"])
         has_excl = any(c["k"] == "Exclude" for c in D.all_constraints(desc["block"]))
-        return ("multicross" in ks and has_weights(desc)) or (has_excl and any(f["window"] for f in desc["factors"]))
+        return ("multicross" in ks and has_weights(desc)) or (has_excl and any(f["window"] for f in desc["factors"])) or \
+            ("nest" in ks and any(c["k"] == "MinimumTrials" for c in desc["block"].get("cs", [])))
     for case in gen_cases(ctx, budget_s, max_trials=5, prefer=first):
         valid = case.valid_seqs()
         if valid is None:
